@@ -158,7 +158,7 @@ constraint:
 			if !ct.WithoutRowid && len(c.IndexedColumns) == 1 {
 				// is this column an alias for the rowid?
 				col := st.column(c.IndexedColumns[0].Column)
-				if isRowid(true, col.Type, c.IndexedColumns[0].SortOrder) {
+				if col != nil && isRowid(true, col.Type, c.IndexedColumns[0].SortOrder) {
 					col.Rowid = true
 					st.RowidPK = true
 					continue constraint
@@ -166,7 +166,9 @@ constraint:
 			}
 			if ct.WithoutRowid {
 				for _, co := range c.IndexedColumns {
-					st.column(co.Column).Null = false
+					if col := st.column(co.Column); col != nil {
+						col.Null = false
+					}
 				}
 				st.setPK(st.toIndexColumns(c.IndexedColumns))
 				autoindex++
